@@ -676,6 +676,25 @@ fn walk_tokens(ts: proc_macro2::TokenStream, roots: &mut BTreeSet<String>, mods:
     }
 }
 
+/// second segments of `incan_stdlib::<module>` paths (feature-gated modules: web, json)
+fn stdlib_modules(ts: proc_macro2::TokenStream, out: &mut BTreeSet<String>) {
+    use proc_macro2::TokenTree as TT;
+    let toks: Vec<TT> = ts.into_iter().collect();
+    for i in 0..toks.len() {
+        match &toks[i] {
+            TT::Group(g) => stdlib_modules(g.stream(), out),
+            TT::Ident(id) if id == "incan_stdlib" => {
+                if let (Some(TT::Punct(a)), Some(TT::Punct(b)), Some(TT::Ident(m))) = (toks.get(i + 1), toks.get(i + 2), toks.get(i + 3)) {
+                    if a.as_char() == ':' && b.as_char() == ':' {
+                        out.insert(m.to_string());
+                    }
+                }
+            }
+            _ => {}
+        }
+    }
+}
+
 fn rs_files(dir: &Path, out: &mut Vec<std::path::PathBuf>) {
     let Ok(rd) = std::fs::read_dir(dir) else { return };
     let mut es: Vec<_> = rd.flatten().map(|e| e.path()).collect();
@@ -709,6 +728,7 @@ fn build() -> i32 {
         let manifest = std::fs::read_to_string(Path::new(&out).join("Cargo.toml")).ok();
         let mut roots = BTreeSet::new();
         let mut mods = BTreeSet::new();
+        let mut stdlib_mods = BTreeSet::new();
         let mut files: BTreeMap<String, usize> = BTreeMap::new();
         let mut unparsed = vec![];
         let mut fs = vec![];
@@ -721,13 +741,16 @@ fn build() -> i32 {
                 unparsed.push(rel.clone());
             }
             match proc_macro2::TokenStream::from_str(&text) {
-                Ok(ts) => walk_tokens(ts, &mut roots, &mut mods),
+                Ok(ts) => {
+                    stdlib_modules(ts.clone(), &mut stdlib_mods);
+                    walk_tokens(ts, &mut roots, &mut mods)
+                }
                 Err(_) => unparsed.push(rel),
             }
         }
         println!(
             "@@C15 {}",
-            json!({"ok": ok, "err": err, "manifest": manifest, "roots": roots, "mods": mods, "files": files, "unparsed": unparsed})
+            json!({"ok": ok, "err": err, "manifest": manifest, "roots": roots, "mods": mods, "stdlib_mods": stdlib_mods, "files": files, "unparsed": unparsed})
         );
     }
     0
